@@ -262,11 +262,45 @@ def rule_r4(chk, p, t):
         "random choice is drawn among the visible targets; all-visible returns the visible pairs",
     )
     D = "resonaate.tasking.decisions.decisions."
+    def vectorised_greedy(m):
+        """Loop-free greedy policy: decide between the argmax idiom (one target per sensor) and the
+        equality-with-column-maximum idiom (every tied maximum is flagged)."""
+        rw = m.params[1]
+        rets = [n for n in walk_no_nested(m.node) if isinstance(n, ast.Return)]
+        require(len(rets) == 1, "single return expected", m.node)
+        e = inline_locals(m, rets[0].value)
+        txt = unparse(e)
+        eq_max = isinstance(e, ast.Compare) and len(e.ops) == 1 and isinstance(e.ops[0], (ast.Eq, ast.GtE)) and any(
+            isinstance(s, ast.Call) and call_name(s) in ("max", "amax", "nanmax") and rw in unparse(s) for s in (e.left, e.comparators[0])
+        )
+        if eq_max:
+            r.violation(
+                m.qualname,
+                "ties-flag-several-targets",
+                f"the greedy policy returns `{txt}`: every target tied for a sensor's maximum reward is flagged, so a sensor can be tasked to more than one target (argmax picks exactly one)",
+                m.loc(rets[0]),
+            )
+            return
+        stores = [n for n in walk_no_nested(m.node) if isinstance(n, ast.Assign) and isinstance(n.targets[0], ast.Subscript) and unparse(n.targets[0].value) in ("decision_matrix", unparse(rets[0].value))]
+        ok = False
+        for s in stores:
+            sl = s.targets[0].slice
+            if isinstance(sl, ast.Tuple) and len(sl.elts) == 2:
+                a0, a1 = inline_locals(m, sl.elts[0]), inline_locals(m, sl.elts[1])
+                if isinstance(a0, ast.Call) and call_name(a0) == "argmax" and f"{rw}" in unparse(a0) and "axis=0" in unparse(a0) and isinstance(a1, ast.Call) and call_name(a1) == "arange" and unparse(s.value) == "True":
+                    ok = True
+        if ok:
+            r.ok(m.qualname, "vectorised argmax over each sensor column (one target per sensor)", m.loc())
+        else:
+            raise Undecided(f"loop-free greedy policy of unknown shape: `{txt[:80]}`", rets[0])
+
     for name in ("MyopicNaiveGreedyDecision", "RandomDecision"):
         m = p.cls(D + name).methods.get("_calculate")
 
         def one(m=m, name=name):
             loops = [n for n in walk_no_nested(m.node) if isinstance(n, ast.For)]
+            if not loops and name.startswith("Myopic"):
+                return vectorised_greedy(m)
             require(len(loops) == 1, "one loop over sensors expected", m.node)
             lp = loops[0]
             it = lp.iter
@@ -327,6 +361,13 @@ def rule_r4(chk, p, t):
                 pass
             else:
                 bad.append("assigned pairs are not stored row->target, column->sensor")
+        from rsa.cfg import cfg_of
+
+        cfgm = cfg_of(mk)
+        for s in [n for n in walk_no_nested(mk.node) if isinstance(n, ast.Assign) and isinstance(n.targets[0], ast.Subscript) and unparse(n.targets[0].value) == "decision_matrix"]:
+            extra = [unparse(cfgm.nodes[cid].ast) for cid, lab in cfgm.control_conditions(cfgm.node_of(s).id) if cfgm.nodes[cid].kind == "cond"]
+            if extra:
+                bad.append(f"an assigned pair is stored only if {extra}: the assignment is no longer complete (pairs of zero or negative reward are dropped)")
         if bad:
             r.violation(mk.qualname, "munkres:" + ";".join(bad), "MunkresDecision: " + "; ".join(bad), mk.loc())
         else:
